@@ -171,15 +171,78 @@ def run_sequence(spec, seq, w1, w2, wc, ab, g1, g2):
     return len(seq), None
 
 
+USER_MODULES = ['pass', 'view', 'fan', 'two_out', 'pass_c']
+
+
+def user_spec(name, idx):
+    """User-defined modules (the contract is that of Module/Signal, whoever writes the module) whose _sensitivity hands
+    back the seed object itself, a view of it, or the same object for two inputs -- all legitimate: a module need not
+    copy what it returns."""
+    pym = ms._pym()
+    cplx = name.endswith('_c')
+    x0 = val.mat(4, 1, 130, idx, cplx).reshape(4)
+    b0 = val.mat(4, 1, 131, idx, cplx).reshape(4)
+
+    class Pass(pym.Module):
+        def _response(self, x):
+            return x.copy()
+
+        def _sensitivity(self, dy):
+            return dy
+
+    class View(pym.Module):
+        def _response(self, x):
+            return x[::-1].copy()
+
+        def _sensitivity(self, dy):
+            return dy[::-1]
+
+    class Fan(pym.Module):
+        def _response(self, a, b):
+            return a + b
+
+        def _sensitivity(self, dy):
+            return dy, dy
+
+    class TwoOut(pym.Module):
+        def _response(self, x):
+            return 2 * x, x.copy()
+
+        def _sensitivity(self, d1, d2):
+            if d1 is None:
+                return d2
+            return 2 * d1 if d2 is None else 2 * d1 + d2
+
+    def make():
+        sx = pym.Signal('x', x0.copy())
+        if name in ('pass', 'pass_c'):
+            m = Pass(sx)
+            return m, [sx], list(m.sig_out)
+        if name == 'view':
+            m = View(sx)
+            return m, [sx], list(m.sig_out)
+        if name == 'fan':
+            sb = pym.Signal('b', b0.copy())
+            m = Fan([sx, sb])
+            return m, [sx, sb], list(m.sig_out)
+        m = TwoOut(sx, [pym.Signal('y1'), pym.Signal('y2')])
+        return m, [sx], list(m.sig_out)
+    return ms.Spec('user', make, [])
+
+
 def execute(case):
     desc, idx, L = case['desc'], case['table'], case['L']
-    spec = ms.build(desc, idx)
-    if spec.iterative:
-        return {'skipped': 'iterative solver configuration'}
-    from pmc.props.c01 import admissible, sig_extras
-    why = admissible(desc, spec, idx)
-    if why:
-        return {'skipped': why}
+    if desc['fam'] == 'user':
+        spec = user_spec(desc['name'], idx)
+        sig_extras = lambda d: {'module': d['name']}  # noqa: E731
+    else:
+        spec = ms.build(desc, idx)
+        if spec.iterative:
+            return {'skipped': 'iterative solver configuration'}
+        from pmc.props.c01 import admissible, sig_extras
+        why = admissible(desc, spec, idx)
+        if why:
+            return {'skipped': why}
     m, sin, sout = spec.make()
     m.response()
     y0 = [ms.copy_obj(s.state) for s in sout]
@@ -252,6 +315,9 @@ def generate(tier, seed):
     yield {'__level__': 'L3/reduced'}
     for i, d in enumerate(red):
         yield {'desc': d, 'table': t, 'L': 3, 'combo': i}
+    yield {'__level__': 'L4/user-defined modules returning their seed'}
+    for i, nm in enumerate(USER_MODULES):
+        yield {'desc': {'fam': 'user', 'name': nm}, 'table': t, 'L': 4 if tier == 'quick' else 5, 'combo': i}
     if tier == 'quick':
         return
     yield {'__level__': 'L3/full'}
